@@ -12,7 +12,7 @@ import itertools
 import numpy as np
 
 import fsic
-from fsic.extensions import AliasMixin
+from fsic.extensions import AliasMixin, TracerMixin
 
 from ..core.observe import canon
 from ..core.runner import Acc, guard, CaseTimeout, robust
@@ -20,10 +20,10 @@ from ..core.runner import Acc, guard, CaseTimeout, robust
 ID = 'C18'
 LEVEL = 'model_checking'
 TECHNIQUE = 'exhaustive enumeration of alias maps x preferred-name subsets x operation histories through aliases, step-wise differential against a canonical-name twin'
-RULE = ('all alias maps over aliases {I,J,K} -> {Y,Z,X} U aliases U self (acyclic apart from self-maps) x histories of depth 1 over 8 write forms x 6 names, '
+RULE = ('all alias maps over aliases {I,_J,K} -> {Y,Z,X} U aliases U self (acyclic apart from self-maps) x histories of depth 1 over 8 write forms x 6 names, '
         'depth 2 on every map (thorough) / on chain and many-to-one maps (quick), each followed by all read forms, solve() and export; '
         'PREFERRED_NAMES: all subsets of size <= 2 (quick) / all subsets (thorough). states = alias configurations, transitions = operations through names, '
-        'traces = histories compared with the twin; non-trivial = history that goes through at least one alias')
+        'export under 6 option sets for histories of length 0; aliases in solve(trace=...) on Alias+Tracer classes; traces = histories compared with the twin; non-trivial = history that goes through at least one alias')
 ASSUMPTIONS = [
     'alias names never equal another model variable\'s name (source marks that case undecided)',
     'ambiguous preferences may be rejected at construction or at export (ValueError either way)',
@@ -323,10 +323,52 @@ def constructs(amap, pref):
     return None
 
 
+_TCLS = {}
+
+
+@robust()
+def run_tracer_case(case):
+    """An alias names its variable also where another mixin takes names: solve(trace=[alias]) records what solve(trace=[variable]) records."""
+    amap = case['amap']
+    key = tuple(sorted(amap.items()))
+    if key not in _TCLS:
+        _TCLS[key] = (type('AliasedTraced', (AliasMixin, TracerMixin, _BASE), {'ALIASES': dict(amap)}),
+                      type('TracedAliased', (TracerMixin, AliasMixin, _BASE), {'ALIASES': dict(amap)}))
+    if 'twin' not in _TCLS:
+        _TCLS['twin'] = type('Traced', (TracerMixin, _BASE), {})
+    out = []
+    eff = amap_effective(amap)
+    for cls in _TCLS[key]:
+        for arg in [[a] for a in eff] + ([eff + ['X']] if eff else []) + [a for a in eff[:1]]:
+            names = [arg] if isinstance(arg, str) else list(arg)
+            m = cls(list(SPAN), **INIT)
+            twin = _TCLS['twin'](list(SPAN), **INIT)
+            try:
+                ra = m.solve(trace=arg, failures='ignore')
+            except Exception as e:
+                out.append(('tracer:alias-in-trace:%s' % type(e).__name__, 'solves as with the variable names', repr(e)[:160], 'solve(trace=%r) fails on an aliased model' % (arg,)))
+                return out
+            rb = twin.solve(trace=[resolve(amap, n) for n in names], failures='ignore')
+            if canon(ra) != canon(rb) or any(canon(m[n]) != canon(twin[n]) for n in VARS + ['status', 'iterations']):
+                out.append(('tracer:solution', 'same as twin', 'differs', 'tracing by alias changed the solution'))
+                return out
+            for pos in range(len(SPAN)):
+                ta, tb = m.trace[pos], twin.trace[pos]
+                if list(ta.index) != list(tb.index) or canon(np.asarray(ta.values, dtype=float)) != canon(np.asarray(tb.values, dtype=float)):
+                    out.append(('tracer:recorded-values', np.asarray(tb.values).tolist(), np.asarray(ta.values).tolist(), 'trace=%r records other values than the variables it names' % (arg,)))
+                    return out
+    return out
+
+
 def run_block(block, tier, seed):
     acc = Acc()
     for amap in maps()[block['lo']:block['hi']]:
         acc.states += 1
+        tcase = {'amap': amap, 'tracer': True}
+        acc.evaluations += 1
+        acc.nontrivial += bool(amap_effective(amap))
+        for key, exp, obs, what in run_tracer_case(tcase):
+            acc.violation(key, tcase, exp, obs, what)
         case0 = {'amap': amap, 'pref': [], 'hist': []}
         acc.evaluations += 1
         hang = constructs(amap, [])
@@ -404,6 +446,8 @@ def run_block(block, tier, seed):
 
 
 def run_one(case):
+    if case.get('tracer'):
+        return run_tracer_case(case)
     hang = constructs(case['amap'], case['pref'])
     if hang:
         return [hang]
